@@ -13,7 +13,7 @@ from .families import tla_cfg
 from .project import VarIndex, key_of, pins_for
 from .replay import Problem, lattice_ok
 
-MODEL_INVARIANTS = ['ValDef', 'BalanceInv', 'LevelInv', 'WindowInv', 'OrderInertInv', 'GroupInv', 'PeriodInv']
+MODEL_INVARIANTS = ['ValDef', 'BalanceInv', 'LevelInv', 'WindowInv', 'OrderInertInv', 'GroupInv', 'PeriodInv', 'SplitRefinesUnsplit']
 ALL_FAULTS = ['cap', 'rate', 'level_lo', 'level_hi', 'end_level', 'min_take', 'max_take', 'simult', 'hold',
               'outside_window', 'group_rate', 'period_rate', 'order_frac', 'order_full', 'balance']
 
